@@ -659,9 +659,83 @@ fcppt::optional::object<fg::object<cell, N>> make_grid(P<N> const &s, std::uint3
 }
 
 // ------------------------------------------------------------------ object: construction, storage order, at_optional
+// swap (member and free function) and the assignments between grids of DIFFERENT sizes: afterwards each grid is, cell
+// by cell and in its size, what the other one was (offsets, at_optional and the position range are then judged on it)
+template <std::size_t N>
+void swap_assign_entry()
+{
+  std::string const e = "swap-assign/N=" + std::to_string(N);
+  if (!vf::entry_enabled(e))
+    return;
+  vf::set_entry(e);
+  using G = fg::object<cell, N>;
+  std::vector<P<N>> const sizes = box<N>(all<N>(0), all<N>(3));
+  for (P<N> const &s1 : sizes)
+  {
+    if (!my_item())
+      continue;
+    if (!vf::begin_case("size %s against every size with extents in [0,2]", show(s1).c_str()))
+      continue;
+    vf::note_distinct(hp(s1, vf::hash_str(e)));
+    for (P<N> const &s2 : sizes)
+    {
+      vf::operands(enc(s1), enc(s2));
+      vf::add_evals(1);
+      auto const fa = [](P<N> const &p) { return cell{code<N>(p), tag_a}; };
+      auto const fb = [](P<N> const &p) { return cell{code<N>(p) ^ 0x2aaU, tag_b}; };
+      for (int how = 0; how < 4; ++how)
+      {
+        auto oa = make_grid<N>(s1, tag_a);
+        if (!oa.has_value())
+          continue;
+        G a = std::move(oa.get_unsafe());
+        G b(to_dim<std::size_t, N>(s2), [&fb](typename G::pos const &p) { return fb(from_vec<N>(p)); });
+        char const *what = "";
+        switch (how)
+        {
+        case 0:
+          what = "a.swap(b)";
+          a.swap(b);
+          break;
+        case 1:
+        {
+          what = "swap(a, b)";
+          using std::swap;
+          swap(a, b);
+          break;
+        }
+        case 2:
+          what = "copy assignment a = b";
+          a = std::as_const(b);
+          break;
+        default:
+          what = "move assignment a = std::move(b), then b = a";
+          a = std::move(b);
+          b = std::as_const(a);
+          break;
+        }
+        std::string const w = std::string(what) + " with sizes " + show(s1) + " and " + show(s2);
+        if (how < 2)
+        {
+          check_grid<N>(e + "/swap/first", w, a, s2, fb);
+          check_grid<N>(e + "/swap/second", w, b, s1, fa);
+          VF_COUNT("grid/swap");
+        }
+        else
+        {
+          check_grid<N>(e + "/assign/target", w, a, s2, fb);
+          check_grid<N>(e + "/assign/source", w, b, s2, fb);
+          VF_COUNT("grid/assign");
+        }
+      }
+    }
+  }
+}
+
 template <std::size_t N>
 void object_entry()
 {
+  swap_assign_entry<N>();
   std::string const e = "object/N=" + std::to_string(N);
   if (!vf::entry_enabled(e))
     return;
